@@ -5,6 +5,8 @@ input of the model (each is replayed on the real implementation by `py/props/c13
 -/
 import WpModel.Model.ReplacedDoc
 import WpModel.Model.RasterEmbed
+import WpModel.Model.ReplacedBg
+import WpModel.Model.ImageOrient
 
 namespace Wp.C13.Witness
 open Wp Wp.Replaced
@@ -45,6 +47,26 @@ catch (known finding `unwritable-mode-crash`). -/
 theorem unwritable_mode_raises :
     (rasterInit ⟨.CMYK, false, .other, false, false, true⟩ ⟨false, false⟩).toOption = none ∧
     (rasterInit ⟨.PA, false, .other, false, false, true⟩ ⟨false, false⟩).toOption = none := by
+  constructor <;> decide +kernel
+
+/-- `background: url(10px tile) 300px 0 no-repeat repeat` on a 50px-wide box: the image is placed at
+x = 300, outside the box, and must not be visible; the pattern steps by `max(10, 2·50) = 100` on the
+no-repeat axis, so the copy `k = -3` lies at x = 0..10, inside the painting area
+(known finding `background-no-repeat-axis-wraps`). -/
+theorem no_repeat_axis_wraps :
+    (repeatAxis .noRepeat 10 50 50 300).toOption = some (100, 300) ∧
+    ((300 : Rat) + (-3) * 100 < 0 + 50 ∧ (0 : Rat) < 300 + (-3) * 100 + 10) := by
+  constructor
+  · decide +kernel
+  · constructor <;> decide +kernel
+
+open Wp.ImageOrient in
+/-- `image-orientation: 90deg` on the two-pixel image `[A B]`: css-images-3 rotates to the right (A on top);
+`rotate_pillow_image` uses Pillow's `ROTATE_90`, a quarter turn to the LEFT (B on top)
+(known finding `image-orientation-rotates-ccw`). -/
+theorem orientation_quarter_turn_is_ccw :
+    (rotatePillow (Img.ofRows 0 [[10, 20]]) (.turn 90 false)).1.rows = [[20], [10]] ∧
+    (cssOrient (Img.ofRows 0 [[10, 20]]) 90 false).rows = [[10], [20]] := by
   constructor <;> decide +kernel
 
 end Wp.C13.Witness
